@@ -46,7 +46,7 @@ mut("c15_decode_writes_same_value", "element.go", "\tif data[0] != encodingPrefi
     "DecodeCompressed stores an identical value into its input (invisible to before/after comparison)")
 mut("c15_scalar_decode_scratch_in_input", "scalar.go", "\tif scalar.ReduceBytes(&s.S, [scalarLength]byte(in)) == 0 {", "\tin[31], in[0] = in[0], in[31]\n\tin[31], in[0] = in[0], in[31]\n\tif scalar.ReduceBytes(&s.S, [scalarLength]byte(in)) == 0 {", ["C15", "C16"],
     "Scalar.Decode swaps two input bytes and swaps them back")
-mut("c15_xcoordinate_aliases_later", "element.go", "func (e *Element) XCoordinate() []byte {\n\treturn e.Encode()[1:]", "var xcoordBuf [33]byte\n\n// XCoordinate returns x.\nfunc (e *Element) XCoordinate() []byte {\n\tcopy(xcoordBuf[:], e.Encode())\n\treturn xcoordBuf[1:]", ["C15"], "XCoordinate returns a slice of a reused package buffer")
+mut("c15_xcoordinate_aliases_later", "element.go", "func (e *Element) XCoordinate() []byte {\n\treturn e.Encode()[1:]", "var xcoordBuf [33]byte\n\n// XCoordinate returns x.\nfunc (e *Element) XCoordinate() []byte {\n\tcopy(xcoordBuf[:], e.Encode())\n\treturn xcoordBuf[1:]", ["C15", "C16"], "XCoordinate returns a slice of a reused package buffer")
 mut("c15_marshal_shares_with_hash_input", "group.go", "\tuniform := expandXMD(input, dst, uint(secLength))\n\ts := NewScalar()", "\tif len(input) > 0 && cap(input) > len(input) {\n\t\t_ = append(input, 0)\n\t}\n\tuniform := expandXMD(input, dst, uint(secLength))\n\ts := NewScalar()", ["C15", "C16"],
     "HashToScalar appends into the message's spare capacity")
 
